@@ -4,6 +4,7 @@ model (Model/Bandit.v through run_C16), on random ask/tell programs, plus an ind
 of the property directly on what the implementation did."""
 import py2v_proto
 import py2v_ucb
+import py2v_bandit
 import copy
 import json
 import math
@@ -17,8 +18,9 @@ import c04_util as U
 
 CONFIG = {
     "cone": ["Base/ListUtil.v", "Base/SliceUtil.v", "Model/Store.v", "Model/Scheduler.v", "Proofs/SchedulerProofs.v",
-             "Model/Bandit.v", "Proofs/BanditProofs.v", "Generated/ProtoGen.v", "Refine/ProtoRefine.v", "Generated/UcbGen.v", "Refine/UcbRefine.v", "Properties/C16.v"],
-    "extra_property_files": ["Refine/ProtoRefine.v", "Refine/UcbRefine.v"],
+             "Model/Bandit.v", "Proofs/BanditProofs.v", "Generated/ProtoGen.v", "Refine/ProtoRefine.v", "Generated/UcbGen.v", "Refine/UcbRefine.v", "Properties/C16.v",
+             "Model/BanditTellFacts.v", "Generated/BanditTellGen.v", "Refine/BanditTellRefine.v"],
+    "extra_property_files": ["Refine/ProtoRefine.v", "Refine/UcbRefine.v", "Refine/BanditTellRefine.v"],
     "trusted": ["harness/py2v_ucb.py: fail-closed translator of the UCB1 score expression (and of +inf initialisation, the selection != 0 mask, the "
                 "descending argsort) of BanditScheduler.ask; Refine/UcbRefine.v proves it equal to the documented formula over R with uninterpreted "
                 "sqrt / log (stdlib real-number axioms)",
@@ -678,6 +680,7 @@ def report(rep, case, d, driver):
 def check(rep, tier, seed, driver):
     py2v_proto.report(rep)
     py2v_ucb.report(rep)
+    py2v_bandit.report(rep)
     rng = random.Random(seed)
     n = 420 if tier == "quick" else 3000
     rep.rule = ("random ask/tell programs (0-25% out-of-order calls incl. ask_dqd/tell_dqd, malformed tells) on a real BanditScheduler: "
